@@ -129,6 +129,8 @@ def inh_lang(shape, kind='or', depth4=False, ttc=None, tags=(), meta=None, requi
             # redefinition replaces them, '+>' and a bare re-declaration keep the inherited ones
             k = [x for x, _ in lv].index(t)
             tg, mt, tc = tuple(tags), dict(meta or {}), ttc
+            if ttc == 'alternate':            # Enabled on even levels, Disabled on odd ones
+                tc = fn('Enabled') if k % 2 == 0 else fn('Disabled')
             if distinct:
                 tg = tg + ('tag' + t,)
                 mt['user'] = 'declared on ' + t
